@@ -424,7 +424,7 @@ def distribution(cases):
     return {"scenarios_by_kind": d, "threads": nth}
 
 
-TECHNIQUE = "Lean 4 invariant proof over an interleaving model (any number of threads/programs) + recorded atomic-step shapes + exhaustive schedule replay on the real library"
+TECHNIQUE = "Lean 4 invariant proof over an interleaving model (any number of threads/programs) + heap model of handles stored inside objects with the three statement orders of operator= proved equivalent + recorded atomic-step shapes and statement orders regenerated from the source + exhaustive schedule replay on the real library"
 LEVEL_TEXT = ("Proved in Lean 4 for any number of threads and any finite programs, every schedule: if each thread only increments/"
               "decrements/reads objects it holds a handle to (thread-local well-formedness), then the reference count always equals the "
               "number of live handles, no increment, decrement or payload read touches released storage, storage is released by exactly "
